@@ -77,6 +77,23 @@ def unsigned_literals(draw):
         if x != x or x in (float("inf"),):
             x = 1.5
         return literal_text(x)
+    if k == 8 and draw(st.booleans()):
+        # just above / below the midpoint of two adjacent single-precision values, by less than half an ulp of a double: converting
+        # through a double first lands exactly on the midpoint (ties-to-even), a direct single conversion does not
+        from decimal import Decimal, getcontext
+        getcontext().prec = 200
+        bits = draw(st.integers(0x00800000, 0x7F000000))
+        lo = struct.unpack(">f", struct.pack(">I", bits))[0]
+        hi = struct.unpack(">f", struct.pack(">I", bits + 1))[0]
+        mid = (Decimal(lo) + Decimal(hi)) / 2
+        eps = Decimal(abs(hi - lo)) / Decimal(2 ** 40)
+        v = mid + eps if draw(st.booleans()) else mid - eps
+        txt = format(v, ".60e")
+        mant, ex = txt.split("e")
+        mant = mant.rstrip("0")
+        if mant.endswith("."):
+            mant += "0"
+        return "%se%d" % (mant, int(ex))
     if k < 9:
         # halfway cases between two doubles near 2^53
         n = draw(st.integers(2 ** 53, 2 ** 54))
